@@ -1,5 +1,5 @@
 (* Rounding kernels over Q shared by the models: floor / ceiling facts, round-half-even (numpy .round(0)). *)
-From Coq Require Import ZArith QArith Qround Qminmax Lia Lra Psatz.
+From Coq Require Import ZArith QArith Qround Qminmax Lia Lqa.
 Open Scope Q_scope.
 
 Lemma inj1 (z : Z) : inject_Z (z + 1) == inject_Z z + 1.
